@@ -18,6 +18,7 @@ def ob(props, rule, key, status, where="", detail="", nontrivial=True, **data):
 
 
 RULES = []
+CORPUS_RULES = {"W5", "W6", "H1", "H2", "P2", "P6", "W9", "N3", "N4", "S1", "P3", "A1", "P5"}
 
 
 def rule(name, props, floor=0, tiers=("quick", "thorough"), doc=""):
@@ -51,7 +52,9 @@ def run_rules(facts, tier, only_props=None, log=None):
             obs = [ob(r["props"], r["name"], "RULE-CRASHED", "violation", "",
                       f"rule {r['name']} crashed: {e!r}\n{traceback.format_exc()[-1500:]}")]
         n = len(obs)
-        if n < r["floor"]:
+        if n < r["floor"] and getattr(facts, "corpus_build_error", None) and r["name"] in CORPUS_RULES:
+            pass   # reported once by rule CB
+        elif n < r["floor"]:
             obs.append(ob(r["props"], r["name"], "ANCHOR-LOST", "violation", "",
                           f"rule {r['name']} matched {n} instances, fewer than the floor {r['floor']} confirmed by hand: "
                           f"the anchors it depends on are gone (fail closed)"))
